@@ -15,6 +15,8 @@ use std::sync::Arc;
 #[derive(Clone, Debug, Serialize, Deserialize, PartialEq)]
 pub enum Step {
 	Call,
+	/// a call whose transport write completes late: it is answered while `send` has not returned yet
+	CallLateSend { err: bool },
 	Subscribe,
 	Batch(u8),
 	Notify,
@@ -284,6 +286,7 @@ impl SubCheck for Routing {
 		let max = tier.pick(14usize, 28);
 		let step = prop_oneof![
 			5 => Just(Step::Call),
+			1 => proptest::bool::weighted(0.2).prop_map(|err| Step::CallLateSend { err }),
 			2 => Just(Step::Subscribe),
 			2 => (1u8..5).prop_map(Step::Batch),
 			1 => Just(Step::Notify),
@@ -318,6 +321,7 @@ impl SubCheck for Routing {
 			let mut interleaved = false;
 			let mut max_outstanding = 0usize;
 			let mut since_last_answer_other = false;
+			let mut late_sends = 0u32;
 			for (step, settle_after) in &case.steps {
 				w.read_wire();
 				// wire ids of concurrently pending single requests are pairwise distinct
@@ -334,6 +338,23 @@ impl SubCheck for Routing {
 				}
 				match step {
 					Step::Call => w.spawn_call(),
+					Step::CallLateSend { err } => {
+						if !w.poisoned {
+							late_sends += 1;
+							let gate = format!("late{late_sends}");
+							w.mc.shared.send_plans.lock().push_back(SendPlan::WireThenGate(gate.clone()));
+							w.spawn_call();
+							settle().await;
+							w.read_wire();
+							let op = w.ops.len() - 1;
+							if w.ops[op].wire_ids[0].is_some() {
+								w.answer_single(op, *err);
+								settle().await;
+							}
+							w.mc.shared.gates.open(&gate);
+							settle().await;
+						}
+					}
 					Step::Subscribe => w.spawn_subscribe(),
 					Step::Batch(n) => w.spawn_batch(*n as usize),
 					Step::Notify => w.spawn_notify(),
@@ -424,6 +445,9 @@ impl SubCheck for Routing {
 			}
 			if w.poisoned {
 				obs.class("with-response-matching-nothing");
+			}
+			if late_sends > 0 {
+				obs.class("answered-before-send-returned");
 			}
 			let connected = w.mc.client.is_connected();
 			for (i, (op, out)) in w.ops.iter().zip(outs.iter()).enumerate() {
